@@ -3,6 +3,7 @@ package p_broker
 import (
 	"encoding/json"
 	"fmt"
+	"strings"
 	"sync"
 	"testing"
 	"time"
@@ -544,6 +545,23 @@ func enumC11(emit func(C11Case)) {
 		emit(C11Case{Auth: "", First: full[:cut], Origin: fmt.Sprintf("CONNECT (%d bytes) truncated after %d bytes, then the end of the stream while the client goes on reading", len(full), cut), Then: "halfclose"})
 	}
 	emit(C11Case{Auth: "", First: []byte{0x10, 0xff, 0xff, 0xff, 0xff, 0x01}, Origin: "CONNECT with a 5-byte remaining length", Then: "close"})
+	// acceptable CONNECTs around and beyond 64 KiB (each field holds up to 65535 bytes, a CONNECT up to five of them)
+	for _, big := range []struct{ will, user, pass int }{{65535 - 40, 0, 0}, {65535, 0, 0}, {0, 40000, 30000}, {65535, 65535, 65535}, {16384, 0, 0}, {0, 127, 0}, {0, 128, 0}} {
+		cs := connectSpec{name: "MQTT", level: 4, flags: 2, id: "bigconnect", will: big.will}
+		if big.will > 0 {
+			cs.flags |= 4
+		}
+		if big.user > 0 {
+			cs.flags |= 128
+			cs.user = strings.Repeat("u", big.user)
+		}
+		if big.pass > 0 {
+			cs.flags |= 64
+			cs.pass = strings.Repeat("p", big.pass)
+		}
+		enc := codec.Encode(cs.packet())
+		emit(C11Case{Auth: "", First: enc, Origin: fmt.Sprintf("acceptable CONNECT of %d bytes (will message %d, user name %d, password %d bytes)", len(enc), big.will, big.user, big.pass), Then: "packets"})
+	}
 }
 
 func failC11(t interface{ Fatalf(string, ...any) }, rec *ev.Rec, c C11Case, msg string) {
